@@ -83,4 +83,5 @@ def build(ub, algebra_text):
                   "fn btor2_state_operand(ctx: &mut Context, maybe_expr: ExprRef, state_tpe: Type, is_init_not_next: bool) -> ExprRef",
                   "{ " + m.group(0) + " expr }", PARSE, line, {"receivers": {}, "replace": REPL},
                   note="the operand-conversion statements of parse_state_init_or_next, verbatim")
+    ub.pin_rest_of_file(PARSE)   # frame: the other functions of the file (DESIGN 11.12)
     ub.out("} // verus!\nfn main() {}\n")
